@@ -711,16 +711,23 @@ func (in *instr) stmt(s ast.Stmt, withY bool) []ast.Stmt {
 		in.exprs(st.Call)
 		if sel, ok := st.Call.Fun.(*ast.SelectorExpr); ok && len(st.Call.Args) == 0 {
 			w := ""
+			isLocker := false
 			switch in.syncMethod(sel) {
 			case "Mutex.Unlock", "RWMutex.Unlock":
 				w = "true"
 			case "RWMutex.RUnlock":
 				w = "false"
+			case "Locker.Unlock":
+				w, isLocker = "true", true
 			}
 			if w != "" {
 				// defer mu.Unlock()  ->  p := &mu; defer func() { simrt.UL(site, p, w); p.Unlock() }()
 				p := in.tmp("mu")
-				pre = append(pre, &ast.AssignStmt{Lhs: []ast.Expr{p}, Tok: token.DEFINE, Rhs: []ast.Expr{in.addrOf(sel)}})
+				recv := in.addrOf(sel)
+				if isLocker {
+					recv = sel.X // the interface value itself
+				}
+				pre = append(pre, &ast.AssignStmt{Lhs: []ast.Expr{p}, Tok: token.DEFINE, Rhs: []ast.Expr{recv}})
 				main = &ast.DeferStmt{Call: &ast.CallExpr{Fun: &ast.FuncLit{Type: &ast.FuncType{Params: &ast.FieldList{}}, Body: &ast.BlockStmt{List: []ast.Stmt{
 					&ast.ExprStmt{X: simCall("UL", in.site(pos, "deferred-unlock"), p, ast.NewIdent(w))},
 					&ast.ExprStmt{X: &ast.CallExpr{Fun: &ast.SelectorExpr{X: p, Sel: ast.NewIdent(sel.Sel.Name)}}},
@@ -835,6 +842,13 @@ func (in *instr) stmt(s ast.Stmt, withY bool) []ast.Stmt {
 					pre = append(pre, &ast.ExprStmt{X: simCall("UL", in.site(pos, "unlock"), in.addrOf(sel), ast.NewIdent("true"))})
 				case "RWMutex.RUnlock":
 					pre = append(pre, &ast.ExprStmt{X: simCall("UL", in.site(pos, "runlock"), in.addrOf(sel), ast.NewIdent("false"))})
+				case "Locker.Lock":
+					// a lock held behind the sync.Locker interface: the probe looks at the dynamic value
+					// (*sync.Mutex / *sync.RWMutex are probed, anything else is passed through)
+					pre = append(pre, &ast.ExprStmt{X: simCall("L", in.site(pos, "lock"), sel.X, ast.NewIdent("true"))})
+					hasOwnYield = true
+				case "Locker.Unlock":
+					pre = append(pre, &ast.ExprStmt{X: simCall("UL", in.site(pos, "unlock"), sel.X, ast.NewIdent("true"))})
 				case "WaitGroup.Wait":
 					tk := in.tmp("tk")
 					pre = append(pre, &ast.AssignStmt{Lhs: []ast.Expr{tk}, Tok: token.DEFINE, Rhs: []ast.Expr{simCall("B", in.site(pos, "wgwait"))}})
